@@ -210,8 +210,13 @@ def explore_adaptive(harnesses, levels, budget, nproc=None, chunk=400, hard_cap=
         outstanding[(label, li)] = outstanding.get((label, li), 0) + 1
         queue.append((spec, dict(levels[li], level=li), prefix, chunk, label))
 
-    for spec, label in harnesses:
+    maxlevel = {}
+    for h in harnesses:
+        spec, label = h[0], h[1]
+        if len(h) > 2:
+            maxlevel[label] = h[2]
         push(spec, label, 0)
+    partial = {}
 
     def account(part, leftover, args):
         spec, bounds, _, _, label = args
@@ -222,20 +227,26 @@ def explore_adaptive(harnesses, levels, budget, nproc=None, chunk=400, hard_cap=
         # evaluations of lower levels are re-explored by the deeper level: keep only the deepest level's count per harness
         total.merge(part)
         outstanding[key] -= 1
-        if leftover:
-            if hard_cap is not None and counts[key] >= hard_cap:
-                total.count("caps_hit")
-                total.notes["cap:" + label] = "level %r stopped after %d executions" % (levels[li], counts[key])
-            else:
+        cap = hard_cap if hard_cap is not None else 4 * budget
+        if leftover or key in partial:
+            if counts[key] >= cap and li > 0:
+                # the level turned out larger than predicted: it is abandoned and NOT reported as completed
+                partial[key] = counts[key]
+            elif leftover:
                 for pre in leftover:
                     push(spec, label, li, pre)
+        if outstanding[key] == 0 and key in partial:
+            total.notes.setdefault("levels_abandoned_after_cap", {})[label] = "K=%d,T=%d abandoned after %d executions" % (
+                levels[li]["K"], levels[li].get("T", 0), counts[key])
+            return
         if outstanding[key] == 0:
             done_bounds[label] = "K=%d,T=%d (%d executions)" % (levels[li]["K"], levels[li].get("T", 0), counts[key])
             if li + 1 < len(levels) and not part.errors:
                 # predicted size of the next level: this level times the growth seen between the last two levels
                 prev = counts.get((label, li - 1), 0)
                 growth = max(3.0, float(counts[key]) / prev) if prev else 8.0
-                if counts[key] * growth <= budget:
+                predicted = counts[key] * growth
+                if predicted <= budget and li + 1 <= maxlevel.get(label, len(levels)):
                     push(spec, label, li + 1)
 
     if nproc == 1:
